@@ -238,8 +238,8 @@ Ltac dm :=
   match goal with
   | |- context [match ?x with _ => _ end] => let E := fresh "E" in destruct x eqn:E; try hfact E
   end.
-Ltac hred := cbn [sres_state st_heap set_stack set_calls set_globals set_open set_log set_heap tick set_rem
-                  sraw_set fst snd] in *.
+Ltac hred := cbn [sres_state st_heap st_calls st_open st_globals set_stack set_calls set_globals set_open set_log set_heap tick set_rem
+                  sraw_set spop_n fst snd] in *.
 
 Section Preserve.
 Variable F : fops.
@@ -338,6 +338,230 @@ Lemma hs_44 ip0 s : opcode_at P ip0 = 44%N -> SAME ip0 s.
 Proof.
   intros Hop. step_opc Hop. unfold i_43_44. change (44 =? 43)%N with false. cbv iota.
   repeat dm; hred; rewrite ?push_next_heap; reflexivity.
+Qed.
+
+
+(* ---- the opcodes that allocate or rewrite a cell ---- *)
+Lemma good_alloc_after h X o : good h X ->
+  (forall t, o = OTable t -> twf (veq X) (dom X) t) -> good h (X ++ [o]).
+Proof. intros H1 H2. eapply good_trans; [exact H1 | apply good_alloc, H2]. Qed.
+
+Lemma good_hset_after h X a o o' : good h X -> hget X a = Some o -> same_kind o o' ->
+  (forall t', o' = OTable t' -> wf X -> twf (veq X) (dom X) t') -> good h (hset X a o').
+Proof. intros H1 H2 H3 H4. eapply good_trans; [exact H1 | eapply good_hset; eauto]. Qed.
+
+Ltac allocs :=
+  repeat first
+    [ apply good_refl
+    | apply good_alloc_after;
+      [| let t := fresh "t" in let HH := fresh "HH" in
+         intros t HH; first [discriminate HH | inversion HH; subst; apply twf_empty_vm] ] ].
+
+Lemma get_table_ok h v a t : get_table h v = TblOk a t -> v = VObj a /\ hget h a = Some (OTable t).
+Proof.
+  destruct v; cbn [get_table]; try discriminate. destruct (hget h a0) as [[]|] eqn:E; try discriminate.
+  intros H. inversion H; subst. auto.
+Qed.
+
+Lemma g_8 ip0 s : opcode_at P ip0 = 8%N -> G s (STEP ip0 s).
+Proof.
+  intros Hop. step_opc Hop. unfold i_8, salloc, halloc. cbv beta iota zeta.
+  destruct (op_u32 P (ip0 + 1)); [|apply G_same; reflexivity].
+  destruct (read_str n (p_data P)); try (apply G_same; reflexivity).
+  eapply G_heap; [rewrite push_next_heap; hred; reflexivity | allocs].
+Qed.
+
+Lemma g_31 ip0 s : opcode_at P ip0 = 31%N -> G s (STEP ip0 s).
+Proof.
+  intros Hop. step_opc Hop. unfold i_31, salloc, halloc. cbv beta iota zeta.
+  eapply G_heap; [rewrite push_next_heap; hred; reflexivity | allocs].
+Qed.
+
+Lemma g_37_42 ip0 s k : In k [37; 42]%N -> opcode_at P ip0 = k -> G s (STEP ip0 s).
+Proof.
+  intros Hin Hop. cbn [In] in Hin.
+  destruct Hin as [<-|[<-|[]]]; step_opc Hop; unfold i_37_42, salloc, halloc; cbv beta iota zeta;
+  (destruct (op_u32 P (ip0 + 1)); [|apply G_same; reflexivity]);
+  (destruct (op_u32 P (ip0 + 1 + 4)); [|apply G_same; reflexivity]);
+  (eapply G_heap; [rewrite push_next_heap; hred; reflexivity |]).
+  - change (37 =? 37)%N with true. cbv iota. allocs.
+  - change (42 =? 37)%N with false. cbv iota. allocs.
+Qed.
+
+Lemma g_38 ip0 s : opcode_at P ip0 = 38%N -> G s (STEP ip0 s).
+Proof.
+  intros Hop. step_opc Hop. unfold i_38, salloc, halloc. cbv beta iota zeta.
+  destruct (op_u32 P (ip0 + 1)); [|apply G_same; reflexivity].
+  destruct (read_str n (p_data P)); try (apply G_same; reflexivity).
+  eapply G_heap; [rewrite push_next_heap; hred; reflexivity | allocs].
+Qed.
+
+(* SetProperty: the key must lie in the key domain (a NaN key, a table used as key or a dangling address
+   would break the alignment of the two parts / the distinctness of the keys) *)
+Lemma g_33 ip0 s : opcode_at P ip0 = 33%N -> dom (st_heap s) (speek s 0) -> G s (STEP ip0 s).
+Proof.
+  intros Hop Dk. step_opc Hop. unfold i_33. cbv zeta. change (st_heap (spop_n s 3)) with (st_heap s).
+  destruct (get_table (st_heap s) (speek s 1)) as [a t| |] eqn:Eg; try (apply G_same; reflexivity).
+  apply get_table_ok in Eg. destruct Eg as (_ & Ha).
+  destruct (tinsert (veq (st_heap s)) t (speek s 0) (speek s 2)) as [t'|] eqn:E; [|apply G_same; reflexivity].
+  unfold G, set_table. hred. eapply good_hset; [exact Ha | exact I |].
+  intros t2 Ht2 W. inversion Ht2; subst t2.
+  destruct (vm_tinsert F _ _ _ (speek s 2) (W _ _ Ha) Dk) as (t3 & E3 & W3 & _).
+  rewrite E in E3; inversion E3; subst; exact W3.
+Qed.
+
+Lemma g_40 ip0 s : opcode_at P ip0 = 40%N -> G s (STEP ip0 s).
+Proof.
+  intros Hop. step_opc Hop. unfold i_40. cbv zeta. change (st_heap (spop_n s 2)) with (st_heap s).
+  destruct (get_table (st_heap s) (speek s 0)) as [a t| |] eqn:Eg; try (apply G_same; reflexivity).
+  apply get_table_ok in Eg. destruct Eg as (_ & Ha).
+  destruct (tappend (veq (st_heap s)) t (speek s 1)) as [t'| |] eqn:E; try (apply G_same; reflexivity).
+  unfold G, set_table. hred. eapply good_hset; [exact Ha | exact I |].
+  intros t2 Ht2 W. inversion Ht2; subst t2.
+  destruct (vm_tappend F _ _ (speek s 1) (W _ _ Ha)) as (t3 & j & E3 & W3 & _).
+  rewrite E in E3; inversion E3; subst; exact W3.
+Qed.
+
+Lemma g_41 ip0 s : opcode_at P ip0 = 41%N -> G s (STEP ip0 s).
+Proof.
+  intros Hop. step_opc Hop. unfold i_41. rewrite spop_shape. cbv beta iota. hred.
+  destruct (get_table (st_heap s) _) as [a t| |] eqn:Eg; try (apply G_same; reflexivity).
+  apply get_table_ok in Eg. destruct Eg as (_ & Ha).
+  destruct (tpop (veq (st_heap s)) t) as [[t' v]|] eqn:E; [|apply G_same; reflexivity].
+  eapply G_heap; [rewrite push_next_heap; unfold set_table; hred; reflexivity|].
+  eapply good_hset; [exact Ha | exact I |].
+  intros t2 Ht2 W. inversion Ht2; subst t2.
+  destruct (vm_tpop F _ _ (W _ _ Ha)) as (t3 & E3 & W3 & _).
+  rewrite E in E3; inversion E3; subst; exact W3.
+Qed.
+
+Lemma dom_string h a b : hget h a = Some (OStr b) -> dom h (VObj a).
+Proof. intros H. cbn [vkey]. rewrite H. exact I. Qed.
+
+(* NthRow *)
+Lemma g_39 ip0 s : opcode_at P ip0 = 39%N -> G s (STEP ip0 s).
+Proof.
+  intros Hop. step_opc Hop. unfold i_39. cbv zeta. change (st_heap (spop_n s 2)) with (st_heap s).
+  destruct (get_table (st_heap s) (speek s 1)) as [a t| |] eqn:Eg; try (apply G_same; reflexivity).
+  destruct (speek s 0) as [|i|r|x]; try (apply G_same; reflexivity).
+  destruct (i <? 0)%Z; [apply G_same; reflexivity|].
+  match goal with |- context [match ?x with Some r => _ | None => _ end] => destruct x as [r|] end;
+    [|apply G_same; reflexivity].
+  unfold salloc, halloc. cbv beta iota zeta. hred.
+  set (h := st_heap s).
+  set (h5 := ((h ++ [OTable (mkTable [] [])]) ++ [OStr str_key]) ++ [OStr str_value]).
+  assert (G5 : good h h5) by (unfold h5; allocs).
+  set (ka := N.of_nat (length (h ++ [OTable (mkTable [] [])]))).
+  set (va := N.of_nat (length ((h ++ [OTable (mkTable [] [])]) ++ [OStr str_key]))).
+  assert (Hka : hget h5 ka = Some (OStr str_key)).
+  { unfold h5. apply hget_app_old. apply hget_app_new. }
+  assert (Hva : hget h5 va = Some (OStr str_value)) by (unfold h5; apply hget_app_new).
+  destruct (tinsert (veq h5) (mkTable [] []) (VObj ka) _) as [t1|] eqn:E1; [|exact G5].
+  destruct (tinsert (veq h5) t1 (VObj va) _) as [t2|] eqn:E2; [|exact G5].
+  eapply G_heap; [rewrite push_next_heap; unfold set_table; hred; reflexivity|].
+  eapply good_hset_after with (o := OTable (mkTable [] [])); [exact G5 | | exact I |].
+  - unfold h5. apply hget_app_old. apply hget_app_old. apply hget_app_new.
+  - intros t' Ht' _. inversion Ht'; subst t'.
+    match type of E1 with tinsert _ _ _ ?x = _ =>
+      destruct (vm_tinsert F h5 _ (VObj ka) x (twf_empty_vm F h5) (dom_string _ _ _ Hka)) as (t1' & E1' & W1 & _) end.
+    rewrite E1 in E1'. inversion E1'; subst t1'.
+    match type of E2 with tinsert _ _ _ ?x = _ =>
+      destruct (vm_tinsert F h5 _ (VObj va) x W1 (dom_string _ _ _ Hva)) as (t2' & E2' & W2 & _) end.
+    rewrite E2 in E2'. inversion E2'; subst t2'. exact W2.
+Qed.
+
+(* ---- upvalues: only OUp / OClo cells are rewritten ---- *)
+Definition closeres_state (r : closeres) : state :=
+  match r with ClOk s | ClErr _ s | ClStop _ s => s end.
+
+Lemma close_good fuel top : forall s,
+  good (st_heap s) (st_heap (closeres_state (close_upvalues_go fuel top s))).
+Proof.
+  induction fuel as [|f IH]; intros s; cbn [close_upvalues_go]; [apply good_refl|].
+  destruct (st_open s) as [a|]; [|apply good_refl].
+  destruct (hget (st_heap s) a) as [[t|b|h ar|h|h ar ups|u]|] eqn:E; try apply good_refl.
+  destruct (u_loc u) as [l|]; [|apply good_refl].
+  destruct (l <? top); [apply good_refl|].
+  eapply good_trans; [|apply IH]. hred.
+  eapply good_hset; [exact E | exact I | intros; discriminate].
+Qed.
+
+Lemma good_hset_clo h X ca ch car cups ch' car' cups' :
+  good h X -> hget h ca = Some (OClo ch car cups) -> good h (hset X ca (OClo ch' car' cups')).
+Proof.
+  intros HG Hca. assert (HG' := HG). destruct HG' as (Xe & _).
+  destruct (Xe ca _ Hca) as (o3 & H3 & K). destruct o3; cbn in K; try contradiction.
+  eapply good_hset_after; [exact HG | exact H3 | exact I | intros; discriminate].
+Qed.
+
+Lemma g_46 ip0 s : opcode_at P ip0 = 46%N -> G s (STEP ip0 s).
+Proof.
+  intros Hop. step_opc Hop. unfold i_46.
+  destruct (op_u32 P (ip0 + 1)); [|apply G_same; reflexivity].
+  destruct (top_offset s) as [off|]; [|apply G_same; reflexivity]. cbv zeta.
+  unfold close_upvalues_from.
+  pose proof (close_good (S (length (st_heap s))) (off + N.to_nat n) s) as X.
+  destruct (close_upvalues_go _ _ s); exact X.
+Qed.
+
+Lemma g_22 ip0 s : opcode_at P ip0 = 22%N -> G s (STEP ip0 s).
+Proof.
+  intros Hop. step_opc Hop. unfold i_22.
+  destruct (st_calls s) as [|fr rest]; [apply G_same; reflexivity|]. cbv zeta.
+  unfold close_upvalues_from.
+  pose proof (close_good (S (length (st_heap (set_calls s rest)))) (N.to_nat (fr_off fr)) (set_calls s rest)) as X.
+  destruct (close_upvalues_go _ _ (set_calls s rest)) as [s2|e s2|ab s2]; hred; try exact X.
+  pose proof (sclear_until_heap s2 (N.to_nat (fr_off fr))) as Y.
+  destruct (sclear_until s2 (N.to_nat (fr_off fr))) as [s3 v]. cbn [fst] in Y.
+  destruct rest as [|prev rest']; unfold G; [hred | rewrite push_next_heap]; rewrite Y; exact X.
+Qed.
+
+Lemma g_43 ip0 s : opcode_at P ip0 = 43%N -> G s (STEP ip0 s).
+Proof.
+  intros Hop. step_opc Hop. unfold i_43_44. change (43 =? 43)%N with true. cbv iota.
+  destruct (op_u32 P (ip0 + 1)); [|apply G_same; reflexivity]. cbv zeta.
+  rewrite spop_shape. cbv beta iota. hred.
+  destruct (st_calls s) as [|fr rest]; [apply G_same; reflexivity|].
+  destruct (fr_clo fr) as [ca|]; [|apply G_same; reflexivity].
+  destruct (hget (st_heap s) ca) as [[t|b|h ar|h|h ar ups|u]|]; try (apply G_same; reflexivity).
+  destruct (nth_error ups (N.to_nat n)) as [ua|]; [|apply G_same; reflexivity].
+  destruct (hget (st_heap s) ua) as [[t|b|h' ar'|h'|h' ar' ups'|u]|] eqn:E; try (apply G_same; reflexivity).
+  destruct (u_loc u); [apply G_same; reflexivity|].
+  unfold G. hred. eapply good_hset; [exact E | exact I | intros; discriminate].
+Qed.
+
+Lemma g_45 ip0 s : opcode_at P ip0 = 45%N -> G s (STEP ip0 s).
+Proof.
+  intros Hop. step_opc Hop. unfold i_45.
+  destruct (read_le (p_code P) (ip0 + 1) 1) as [index|]; [|apply G_same; reflexivity].
+  destruct (read_le (p_code P) (ip0 + 1 + 1) 1) as [is_local|]; [|apply G_same; reflexivity].
+  cbv zeta. rewrite spop_shape. cbv beta iota.
+  set (s1 := set_stack s (fst (vs_pop VNil (st_stack s)))).
+  assert (H1 : st_heap s1 = st_heap s) by reflexivity.
+  destruct (snd (vs_pop VNil (st_stack s))) as [|z|r|ca]; try (apply G_same; reflexivity).
+  destruct (hget (st_heap s1) ca) as [[t|b|h ar|h|ch car cups|u]|] eqn:Eca; try (apply G_same; reflexivity).
+  rewrite H1 in Eca.
+  destruct (negb (is_local =? 0)%N).
+  - destruct (top_offset s1) as [off|]; [|apply G_same; reflexivity].
+    destruct (scount s1 <=? off + N.to_nat index); [apply G_same; reflexivity|].
+    destruct (walk_open _ _ _ _ _) as [prev cur|ab]; [|apply G_same; reflexivity].
+    match goal with |- context [if ?c then _ else _] => destruct c end.
+    + destruct cur as [a|]; [|apply G_same; reflexivity].
+      unfold G. hred. eapply good_hset_clo; [apply good_refl | exact Eca].
+    + unfold salloc, halloc. cbv beta iota zeta. clear H1. subst s1. hred.
+      set (h2 := st_heap s ++ [OUp (mkUp (Some (off + N.to_nat index)) VNil cur)]).
+      assert (G2 : good (st_heap s) h2) by (unfold h2; allocs).
+      destruct prev as [pa|].
+      * destruct (hget h2 pa) as [[t|b|h' ar'|h'|h' ar' ups'|pu]|] eqn:Epa; unfold G; hred;
+          try (eapply good_hset_clo; [exact G2 | exact Eca]).
+        eapply good_hset_clo; [|exact Eca].
+        eapply good_hset_after; [exact G2 | exact Epa | exact I | intros; discriminate].
+      * unfold G; hred. eapply good_hset_clo; [exact G2 | exact Eca].
+  - destruct (st_calls s1) as [|fr rest]; [apply G_same; reflexivity|].
+    destruct (fr_clo fr) as [fa|]; [|apply G_same; reflexivity].
+    destruct (hget (st_heap s1) fa) as [[t|b|h' ar'|h'|h' ar' fups|u]|]; try (apply G_same; reflexivity).
+    destruct (nth_error fups (N.to_nat index)) as [ua|]; [|apply G_same; reflexivity].
+    unfold G. hred. eapply good_hset_clo; [apply good_refl | exact Eca].
 Qed.
 
 End Preserve.
